@@ -41,7 +41,7 @@ Failing(k) == {
 \* request for an unknown table) after a valid put / delete: nothing of the batch may be applied
 Batches(k) == { BW(<<first, second>>) :
                   first \in { Req(T1, "put", k @@ [v |-> Num(9)]), Req(T1, "del", k) },
-                  second \in { Req(T1, "put", [v |-> Num(9)]), Req(T1, "put", k @@ [g |-> Num(1)]), Req(T1, "del", [x |-> S1(97)]),
+                  second \in { Req(T1, "put", [v |-> Num(9)]), Req(T1, "put", k @@ [g |-> Num(1)]), Req(T1, "put", k @@ [l |-> Num(1)]), Req(T1, "put", k @@ [e |-> S1(112), s |-> Num(1)]), Req(T1, "del", [x |-> S1(97)]),
                                Req(T1, "del", [h |-> Num(1)]), Req("tblx", "put", k) } }
 
 AD(n) == [n |-> n, ty |-> "S"]
